@@ -1671,8 +1671,12 @@ class Entity(Instance):
         # the iteration order of a set of strings depends on the hash seed
         extern_libraries = {}
 
-        for entity in self._sub_entities:
-            assert isinstance(entity, EntityInst)
+        # extern entities are not part of self._sub_entities,
+        # their libraries must be declared too
+        for entity in self._instances:
+            if not isinstance(entity, EntityInst):
+                continue
+
             path = entity._entity.path()
             if path is not None and path != "work":
                 lib_name = path.split(".")[0]
